@@ -526,8 +526,8 @@ REGISTRY = {
                 assumptions=["sets are built on the real type from the binary SID-block form written by the harness (public constructor)",
                              "sequence numbers in the algebraic checks stay below 2^31 (TLC integers); 2^63-scale numbers are covered as texts by C19"],
                 rule="case = one exported call on the real Mysql56GTIDSet: every set over 2 server UUIDs in the window (enumerated by TLC) x every "
-                     "GTID in and just outside the window for AddGTID/ContainsGTID, all (thorough) or a covering sample (quick) of pairs for "
-                     "Contains/Equal, random wide sets with AddGTID histories of up to 12 steps aimed at interval edges; distinct by content"),
+                     "GTID in and just outside the window for AddGTID/ContainsGTID, an evenly strided sample of the pairs (6 000 quick / 250 000 "
+                     "thorough; the model check covers all pairs of its window) for Contains/Equal, random wide sets with AddGTID histories of up to 12 steps aimed at interval edges; distinct by content"),
     "C19": dict(mode="c19", trace_module="Trace_Codec", trace_cfg="Trace_Codec.cfg", props=["C19"], block_ev=["case"],
                 mc=[dict(module="MC_MariaGTID", cfg="MC_MariaGTID.cfg", workers=4)],
                 assumptions=["the flavor's own set parser is reached through a 3-line overlay shim in package replication (harness/repl/vf_shim.go)",
